@@ -86,15 +86,26 @@ func isSplitCall(v ssa.Value) bool {
 
 // sliceOrigin follows Slice instructions back to the producing value.
 func sliceOrigin(v ssa.Value) ssa.Value {
+	return sliceOriginSeen(v, map[ssa.Value]bool{})
+}
+
+func sliceOriginSeen(v ssa.Value, seen map[ssa.Value]bool) ssa.Value {
 	for {
 		switch x := v.(type) {
 		case *ssa.Slice:
 			v = x.X
 		case *ssa.Phi:
-			// all edges must agree
+			if seen[x] {
+				return v // a loop-carried value: its own origin says nothing new
+			}
+			seen[x] = true
+			// all edges must agree (an edge that leads back to this phi does not count)
 			var o ssa.Value
 			for _, e := range x.Edges {
-				eo := sliceOrigin(e)
+				eo := sliceOriginSeen(e, seen)
+				if eo == ssa.Value(x) {
+					continue
+				}
 				if o == nil {
 					o = eo
 				} else if o != eo {
@@ -253,6 +264,8 @@ func ruleToken(c *Ctx) {
 		b.resolverDecides(l)
 		if b.Name == "v5" {
 			b.indexSyntax(l)
+		} else {
+			b.noHandWrittenDecimal(l)
 		}
 		// the pointer is split as given: strings.Split(path, "/") applied to the path parameter
 		// itself, and exactly the element in front of the first "/" is dropped (a trimmed or
